@@ -13,7 +13,9 @@
 (***************************************************************************)
 EXTENDS Lattice, Json
 
-CONSTANTS Radii, FrameIdx, CentreIdx
+CONSTANTS Radii, FrameIdx, CentreIdx,
+          WideRadii      \* radii (a subset of Radii) of which only the nearly half circles are taken: 20 |P1.M| < R^2, i.e. the
+                         \* included angle (or its complement, which is what an arc given by its centre takes) is above 174 degrees
 CentreSeq == << <<0, 0, 0>>, <<3, -2, 5>>, <<-7, 11, 1>> >>
 
 CirclePts(R) == { p \in (-R..R) \X (-R..R) : p[1] * p[1] + p[2] * p[2] = R * R }
@@ -21,36 +23,45 @@ D2(p, q) == (p[1] - q[1]) * (p[1] - q[1]) + (p[2] - q[2]) * (p[2] - q[2])
 Dot2(p, q) == p[1] * q[1] + p[2] * q[2]
 Cross2(p, q) == p[1] * q[2] - p[2] * q[1]
 
-Triples(R) == { t \in CirclePts(R) \X CirclePts(R) \X CirclePts(R) :
+Abs(x) == IF x < 0 THEN -x ELSE x
+Triples(P) == { t \in P \X P \X P :
                   /\ t[1] # t[3] /\ t[2] # t[1] /\ t[2] # t[3]
                   /\ D2(t[2], t[1]) = D2(t[2], t[3]) }
+\* nearly half circles: P1 and M are lattice points a little less or a little more than a quarter turn apart; the far end
+\* P2 = (2 (P1.M) M - R^2 P1) / R^2 is then a rational point (third entry unused)
+WidePairs(P, rr) == { << p, m, <<0, 0>> >> : <<p, m>> \in { q \in P \X P : q[1] # q[2] /\ 20 * Abs(Dot2(q[1], q[2])) < rr * rr } }
 
-VARIABLES R, fi, c, t
-vars == <<R, fi, c, t>>
-Init == /\ R \in Radii /\ fi \in FrameIdx /\ c \in { CentreSeq[i] : i \in CentreIdx } /\ t \in Triples(R)
+\* (pts: the lattice points of the circle, computed once per radius - TLC re-evaluates definitions at every use)
+VARIABLES R, pts, fi, c, t
+vars == <<R, pts, fi, c, t>>
+Init == /\ R \in Radii /\ pts = { p : p \in CirclePts(R) } /\ fi \in FrameIdx /\ c \in { CentreSeq[i] : i \in CentreIdx }
+        /\ t \in IF R \in WideRadii THEN WidePairs(pts, R) ELSE Triples(pts)
 Next == UNCHANGED vars
 Spec == Init /\ [][Next]_vars
 
 P1 == t[1]
 M == t[2]
-P2 == t[3]
+Wide == R \in WideRadii
+Den == IF Wide THEN R * R ELSE 1
+P2 == IF Wide THEN << 2 * Dot2(t[1], t[2]) * t[2][1] - R * R * t[1][1], 2 * Dot2(t[1], t[2]) * t[2][2] - R * R * t[1][2] >> ELSE t[3]    \* times Den
 hd == Dot2(P1, M)
 hc == Cross2(P1, M)
 \* M is the mid point of an arc: it lies on the perpendicular bisector of the chord and on the circle
 MidOK == /\ M[1] * M[1] + M[2] * M[2] = R * R
-         /\ Dot2(M, << P2[1] - P1[1], P2[2] - P1[2] >>) = 0
+         /\ Wide \/ Dot2(M, P2) = hd              \* M . (P2 - P1) = 0 (for the wide pairs P2 is defined by the reflection, and
+                                                  \* the products exceed TLC's integers)
          /\ hc # 0
 \* turning P1 by twice the half angle gives P2:  P2 = 2 (P1.M) M / R^2 - P1  (exact)
-ReflectOK == /\ R * R * (P2[1] + P1[1]) = 2 * hd * M[1]
-             /\ R * R * (P2[2] + P1[2]) = 2 * hd * M[2]
+ReflectOK == ~Wide => /\ R * R * (P2[1] + P1[1]) = 2 * hd * M[1]
+                       /\ R * R * (P2[2] + P1[2]) = 2 * hd * M[2]
 \* minor arc iff the half angle is below 90 degrees
 Minor == hd > 0
 
 W(p) == InFrame(Frames[fi], c, p[1], p[2], 0)
 Record == [ R |-> R, flen |-> Frames[fi].len, centre |-> c,
-            p1 |-> W(P1), m |-> W(M), p2 |-> W(P2), mopp |-> W(<<-M[1], -M[2]>>),
+            p1 |-> W(P1), m |-> W(M), p2lin |-> InFrame(Frames[fi], <<0, 0, 0>>, P2[1], P2[2], 0), den |-> Den, mopp |-> W(<<-M[1], -M[2]>>),
             axis |-> Frames[fi].w, hd |-> hd, hc |-> hc, minor |-> Minor,
-            others |-> { [pl |-> y, w |-> W(y)] : y \in { z \in CirclePts(R) : z \notin {P1, P2} } },
-            plane |-> [ p1 |-> P1, m |-> M, p2 |-> P2 ] ]
+            others |-> { [pl |-> y, w |-> W(y)] : y \in { z \in pts : z \notin {P1, P2} /\ (Wide => z[1] >= 0 /\ z[2] > 0 /\ z[1] % 5 = 0) } },
+            plane |-> [ p1 |-> P1, m |-> M, p2 |-> P2 ] ]     \* (p2 = centre + p2lin / den; plane.p2 is times den)
 Emit == PrintT(ToJson(Record))
 =============================================================================
